@@ -42,6 +42,25 @@ class KaniEngine:
         return ["cargo", "kani", "--target-dir", self.target, "-Z", "stubbing", "-Z", "unstable-options"]
 
     def run(self, harnesses, tier, log):
+        """harnesses marked `//# jobs: N` (memory-hungry: ~13 GB of CBMC each) run in their own
+        `cargo kani -j N` invocation; everything else runs with -j 16"""
+        groups = {}
+        for h in harnesses:
+            groups.setdefault(int(h.get("jobs", 16)), []).append(h)
+        merged = None
+        for jobs in sorted(groups, reverse=True):
+            res = self._run_group(groups[jobs], tier, log, jobs)
+            if res.get("fatal"):
+                return res
+            if merged is None:
+                merged = res
+            else:
+                merged["harnesses"].update(res["harnesses"])
+                merged["unit"]["cmd"] += " ; " + res["unit"]["cmd"]
+                merged["unit"]["wall_s"] = merged["unit"].get("wall_s", 0) + res["unit"].get("wall_s", 0)
+        return merged
+
+    def _run_group(self, harnesses, tier, log, jobs):
         try:
             info = self._prep()
         except Exception as e:  # noqa: BLE001  (lost anchor, missing file ...)
@@ -52,14 +71,15 @@ class KaniEngine:
         jpath = os.path.join(VERIF, ".work", f"{self.name}-result-{os.getpid()}.json")
         if os.path.exists(jpath):
             os.remove(jpath)
-        cmd = self.base_cmd() + ["-j", "16", "--output-format=terse", "--harness-timeout", f"{tmo}s",
+        cmd = self.base_cmd() + ["-j", str(jobs), "--output-format=terse", "--harness-timeout", f"{tmo}s",
                                  "--export-json", jpath]
         for n in names:
             cmd += ["--harness", n]
         unit = {"cmd": " ".join(cmd) + f"   (cwd {crate})", "sources": info.get("sources", {}),
                 "trusted": info.get("trusted", []), "assumptions": info.get("assumptions", [])}
-        log(f"[{self.name}] kani: {len(names)} harnesses, per-harness timeout {tmo}s")
-        rc, out, wall = sh(cmd, cwd=crate, timeout=tmo * 3 + 900)
+        log(f"[{self.name}] kani: {len(names)} harnesses, -j {jobs}, per-harness timeout {tmo}s")
+        rounds = (len(names) + jobs - 1) // jobs
+        rc, out, wall = sh(cmd, cwd=crate, timeout=tmo * (rounds + 2) + 900)
         open(os.path.join(VERIF, ".work", f"{self.name}-last.log"), "w").write(out)
         unit["wall_s"] = round(wall, 1)
         if not os.path.exists(jpath):
@@ -177,7 +197,7 @@ class KaniEngine:
         for h in harnesses:
             mp = self.modpath_of(h["file"])
             parts = mp.split("::")
-            if len(parts) > 2 and self.name == "e1":  # private nested module: reached through the parent's re-export (tools/overlay.py)
+            if len(parts) > 2 and self.name in ("e1", "e1s"):  # private nested module: reached through the parent's re-export (tools/overlay.py)
                 mp = "::".join(parts[:-2]) + "::verif_contracts_" + parts[-2]
             lines.append(f'    "{h["name"]}" => crate::{mp}::{h["name"]}(),')
         lines += ["    _ => return false,", "  }", "  true", "}", ""]
@@ -225,6 +245,34 @@ def prepare_e1():
                     "bitcoin / serde / derive_more dependencies executed as code where reached"],
         "assumptions": [],
     }
+
+
+def prepare_e1s():
+    import overlay
+    dest = os.path.join(VERIF, ".work", "e1s")
+    info = overlay.build(dest, variant="e1s")
+    reg = os.path.join(dest, "registry.rs")
+    if not os.path.exists(reg):
+        open(reg, "w").write("pub fn run(_: &str) -> bool { false }\n")
+    return {
+        "crate_dir": dest,
+        "sources": {"engine": "E1S: real crates/ordinals/src copied byte-for-byte, ONE import line of lib.rs redirected (std::collections::HashMap -> association-list shim); `mod verif_contracts;` appended to: "
+                    + ", ".join(info["appended_mod_line_to"]), "sha256": info["real_files"]},
+        "trusted": ["rustc MIR as compiled by Kani's toolchain (nightly-2026-08-21), not the release compiler",
+                    "E1S: std::collections::HashMap replaced by contracts/support/hashmap_shim.rs (assumed contract: finite map)"],
+        "assumptions": [],
+    }
+
+
+def modpath_e1s(contract_file):
+    import overlay
+    base = os.path.basename(contract_file)
+    for rel, c in overlay.MODS_S.items():
+        if c == base:
+            if rel == "lib.rs":
+                return "verif_contracts"
+            return rel[:-3].replace("/", "::") + "::verif_contracts"
+    raise KeyError(contract_file)
 
 
 def modpath_e1(contract_file):
@@ -400,10 +448,20 @@ class VerusEngine:
         return ENGINES[via["engine"]].native_replay(via, values, log)
 
 
+DESCRIBE = {
+    "e1s": "Kani 0.68/CBMC proof harnesses inside a byte-for-byte copy of the real `ordinals` crate with ONE import line of lib.rs redirected (std::collections::{HashMap, VecDeque} -> list-based shims, contracts/support/hashmap_shim.rs)",
+    "e2": "Kani 0.68/CBMC proof harnesses on real files of the `ord` crate copied byte-for-byte (and items extracted verbatim) under a substitute crate root with environment shims (tools/overlay_ord.py, contracts/ord/shim)",
+}
+
 ENGINES = {
     "ev": VerusEngine(),
     "e1": KaniEngine("e1", "contracts/ordinals/*_contracts.rs", prepare_e1, modpath_e1,
                      os.path.join(VERIF, "replay", "e1_runner"), "--cfg ordinals_ord_verif"),
+    "e1s": KaniEngine("e1s", "contracts/ordinals_s/*_contracts.rs", prepare_e1s, modpath_e1s,
+                      os.path.join(VERIF, "replay", "e1s_runner"), "--cfg ordinals_ord_verif"),
     "e2": KaniEngine("e2", "contracts/ord/*_contracts.rs", prepare_e2, modpath_e2,
                      os.path.join(VERIF, "replay", "e2_runner"), "--cfg ordinals_ord_verif"),
 }
+
+for _n, _d in DESCRIBE.items():
+    ENGINES[_n].describe = _d
